@@ -120,6 +120,17 @@ Strengthening done because of seeded changes (see also section 8):
   required): the change is then reported as
   `survivor:runtime_node_still_running`. The unchanged tree is clean under
   the new model (all read sites catch both errors).
+* **C12 (mut C12-b: the server no longer forgets a task id that it delivered
+  on the late-request path).** The quick tier reported nothing that belongs
+  to this change (its only report on the changed tree was an unrelated,
+  genuine worker race, since repaired: e856026). C12 had families for cancel
+  and disconnect *with work in flight* but none for "after completion" with a
+  result that reached the server before the client asked for it. Added the
+  `late_fetch` family (both clients wait at a quiescence barrier so that the
+  result is in the server's mailbox, then result, optional second cancel of
+  the delivered id, and close while the other client compiles): the change is
+  reported as `node:system_error` at `handle_cancel_comp_task|KeyError` in
+  24 of 24 scenarios, the unchanged tree is clean.
 
 All other seeded changes were caught by the quick tier as it stood. What each
 needs in order to manifest is in the table; the catching violation kinds are
